@@ -819,6 +819,7 @@ func units(tier string) []engine.Unit {
 	}
 	add("List[int] size ladder", func(r *engine.Rec) { ladder(r, false, ladderN) })
 	add("Array[int] size ladder", func(r *engine.Rec) { ladder(r, true, ladderN) })
+	add("what was handed out earlier stays as it was", keptResults)
 	return us
 }
 
